@@ -57,6 +57,47 @@ pub struct RCtx {
     /// set when an immutable-mode op-assign would also have failed in its read or operator
     /// (either error is accepted)
     pub opassign_alt: Option<RErr>,
+    /// environment-answer script (C08): deviation codes by interaction index, and the recorded
+    /// sequence of interactions with the context
+    pub script: Option<Script>,
+}
+
+/// A script of environment answers: interaction number -> deviation code (absent = default answer).
+///   get_value:      1 = unbound, 2 = a value of another type
+///   call_function:  1 = fails with CustomMessage("env"), 2 = function not found, 3 = returns Int(42)
+///   set_value:      1 = fails with CustomMessage("ro"), 2 = reports success without storing
+#[derive(Clone, Debug, Default)]
+pub struct Script {
+    pub devs: BTreeMap<usize, u8>,
+    pub counter: usize,
+    pub trace: Vec<String>,
+}
+
+impl Script {
+    pub fn next_dev(&mut self, what: String) -> u8 {
+        let d = self.devs.get(&self.counter).copied().unwrap_or(0);
+        self.counter += 1;
+        self.trace.push(if d == 0 { what } else { format!("{} [deviation {}]", what, d) });
+        d
+    }
+}
+
+/// The value a deviating get_value returns instead of `default`.
+pub fn other_type_value(default: Option<&RV>) -> RV {
+    match default {
+        Some(RV::Bool(_)) => RV::Int(7),
+        _ => RV::Bool(true),
+    }
+}
+
+fn assigns_to(a: &Ast, x: &str) -> bool {
+    match a {
+        Ast::Var(_) | Ast::Lit(_) | Ast::Unit => false,
+        Ast::Bin(_, l, r) => assigns_to(l, x) || assigns_to(r, x),
+        Ast::Pre(_, e) | Ast::Call(_, e) => assigns_to(e, x),
+        Ast::Asg(_, y, e) => y == x || assigns_to(e, x),
+        Ast::Tuple(es) | Ast::Chain(es) => es.iter().any(|e| assigns_to(e, x)),
+    }
 }
 
 impl RCtx {
@@ -69,6 +110,7 @@ impl RCtx {
             unit: Unit::Bytes,
             unclaimed: false,
             opassign_alt: None,
+            script: None,
         }
     }
 
@@ -83,6 +125,31 @@ impl RCtx {
         Ok(())
     }
 
+    /// Variable lookup as the evaluator performs it through the context.
+    fn env_get(&mut self, name: &str) -> Option<RV> {
+        let default = self.vars.get(name).cloned();
+        if let Some(s) = &mut self.script {
+            match s.next_dev(format!("get_value({})", name)) {
+                1 => return None,
+                2 => return Some(other_type_value(default.as_ref())),
+                _ => {},
+            }
+        }
+        default
+    }
+
+    /// Assignment as the evaluator performs it through the context.
+    fn env_set(&mut self, name: &str, v: RV) -> Result<(), RErr> {
+        if let Some(s) = &mut self.script {
+            match s.next_dev(format!("set_value({}, {})", name, v.key())) {
+                1 => return Err(RErr::Custom("ro".into())),
+                2 => return Ok(()),
+                _ => {},
+            }
+        }
+        self.set(name, v)
+    }
+
     fn out(&mut self, e: ops::Expect) -> Result<RV, RErr> {
         if e.alt.is_some() {
             self.unclaimed = true;
@@ -95,7 +162,7 @@ impl RCtx {
 
     pub fn eval(&mut self, a: &Ast, mode: Mode) -> Result<RV, RErr> {
         match a {
-            Ast::Var(x) => self.vars.get(x).cloned().ok_or_else(|| RErr::VarNotFound(x.clone())),
+            Ast::Var(x) => self.env_get(x).ok_or_else(|| RErr::VarNotFound(x.clone())),
             Ast::Lit(v) => Ok(v.clone()),
             Ast::Unit => Ok(RV::Empty),
             Ast::Bin(op, l, r) => {
@@ -113,7 +180,7 @@ impl RCtx {
                 let v = self.eval(e, mode)?;
                 match mode {
                     Mode::Mutable => {
-                        self.set(x, v)?;
+                        self.env_set(x, v)?;
                         Ok(RV::Empty)
                     },
                     Mode::Immutable | Mode::NoStorage => Err(RErr::NotMutable),
@@ -121,8 +188,26 @@ impl RCtx {
             },
             Ast::Asg(Some(op), x, e) => {
                 let v = self.eval(e, mode)?;
+                if assigns_to(e, x) {
+                    // `x op= e` as `x = x op e` reads x first; the evaluator reads it after e: accepted both ways
+                    self.unclaimed = true;
+                }
+                if mode == Mode::Immutable {
+                    // the shared-context form fails at the operator without consulting the context
+                    let probe = match self.vars.get(x).cloned() {
+                        None => Err(RErr::VarNotFound(x.clone())),
+                        Some(cur) => {
+                            let ex = ops::binop(*op, &cur, &v);
+                            self.out(ex)
+                        },
+                    };
+                    if let Err(alt) = probe {
+                        self.opassign_alt = Some(alt);
+                    }
+                    return Err(RErr::NotMutable);
+                }
                 // the variable is read after the right-hand side was evaluated
-                let computed: Result<RV, RErr> = match self.vars.get(x).cloned() {
+                let computed: Result<RV, RErr> = match self.env_get(x) {
                     None => Err(RErr::VarNotFound(x.clone())),
                     Some(cur) => {
                         let ex = ops::binop(*op, &cur, &v);
@@ -130,26 +215,31 @@ impl RCtx {
                     },
                 };
                 match mode {
-                    Mode::Immutable => {
-                        if let Err(alt) = computed {
-                            self.opassign_alt = Some(alt);
-                        }
-                        Err(RErr::NotMutable)
-                    },
+                    Mode::Immutable => unreachable!(),
                     Mode::NoStorage => {
                         computed?;
                         Err(RErr::NotMutable)
                     },
                     Mode::Mutable => {
                         let r = computed?;
-                        self.set(x, r)?;
+                        self.env_set(x, r)?;
                         Ok(RV::Empty)
                     },
                 }
             },
             Ast::Call(f, e) => {
                 let arg = self.eval(e, mode)?;
-                if let Some(func) = self.funcs.get(f).cloned() {
+                let mut hidden = false;
+                if let Some(s) = &mut self.script {
+                    match s.next_dev(format!("call_function({}, {})", f, arg.key())) {
+                        1 => return Err(RErr::Custom("env".into())),
+                        2 => hidden = true,
+                        3 => return Ok(RV::Int(42)),
+                        _ => {},
+                    }
+                }
+                let func = if hidden { None } else { self.funcs.get(f).cloned() };
+                if let Some(func) = func {
                     self.log.push((f.clone(), arg.clone()));
                     return match func {
                         RFn::Identity => Ok(arg),
